@@ -61,6 +61,9 @@ func histKey(ops []plan.Op, upto int) string {
 
 // judgeHistory compares every outcome of a history with the solo outcome.
 func (g *c13Engine) judgeHistory(hp *histPlan, res *histResult, p Proc) (*histVerdict, error) {
+	if p.TimedOut && g.e.SlowIsNoVerdict("go", "a history") {
+		return nil, nil
+	}
 	if p.TimedOut {
 		return &histVerdict{Class: "hang", Key: "hang/" + histKey(hp.Ops, len(hp.Ops)), Detail: "the history did not finish within the time limit"}, nil
 	}
